@@ -55,11 +55,14 @@ def run_fast_part(run, tier, pid='C02'):
     if not ok:
         run.violation('%s/fast_SIS/build' % pid, 'extracted model (esis) does not build: ' + log[-500:], {'log': log[-3000:]}, no_input=True)
         return {'n': 0, 'distinct': 0, 'nontrivial': 0, 'stats': {}, 'samples': [], 'mismatches': 0, 'oracle_failures': 0, 'build': 'failed'}
+    props = C.check_props('C02fast')
+    if not props['ok']:
+        run.violation('%s/fast_SIS/proof' % pid, 'Props/C02fast.v no longer checks: %s' % props['log'][-400:], {'broken': 'coq/Props/C02fast.v', 'log': props['log']}, no_input=True)
     res = SC.Result()
     def oracle(case, impl, m):
         if impl['status'] == 'OK':
             res.stat('reinfection_runs', 1 if any(len([e for e in h if e[1] == 1]) >= 2 for h in impl.get('hist', {}).values() if not isinstance(h, str)) else 0)
-            res.stat('redraws', sum(1 for a, b in zip(impl['log'], impl['log'][1:]) if a[0] == 'E' and b[0] == 'E' and a[1] == b[1]))
+            res.stat('consecutive_equal_rate_draws', sum(1 for a, b in zip(impl['log'], impl['log'][1:]) if a[0] == 'E' and b[0] == 'E' and a[1] == b[1]))
         return L.oracle_clock(case, impl, m)
     corpus = [L.case_from_json(j) for j in C.load_corpus('C02') if j.get('kind') == ENTRY]
     if corpus:
@@ -71,7 +74,7 @@ def run_fast_part(run, tier, pid='C02'):
     rnd = [L.gen_case(rng, ENTRY, nmax=8 if i % 3 else 12, malformed=(i % 40 == 0)) for i in range(nrand)]
     SC.run_cases(L, EoN, sim, rnd, ['W ' + R.ent_tokens(rng) for _ in rnd], oracle=oracle, nontrivial=nontrivial, res=res, label='random')
     SC.report(run, pid, ENTRY, res, 'Model/EventSIS.v', PROPS_FILE)
-    return {'n': res.n, 'distinct': len(res.distinct), 'nontrivial': res.nontrivial, 'stats': res.stats, 'samples': res.samples,
+    return {'props': props, 'n': res.n, 'distinct': len(res.distinct), 'nontrivial': res.nontrivial, 'stats': res.stats, 'samples': res.samples,
             'mismatches': len(res.mism), 'oracle_failures': len(res.oracle_bad),
             'rule': 'fast_SIS under the scripted random source, scripts chosen by walking the extracted sampler program: every path (both sides... delays {1/8,3/8,5/4}, '
                     'depth 14 draws, <= %d paths per case) of every graph on <= 3 nodes x initial sets of size <= 2 x weight paths; random walks on graphs <= 12 nodes, weighted and '
@@ -104,7 +107,7 @@ if __name__ == '__main__':
     run = C.Run('C02', tier, 20260927)
     t0 = time.time()
     d = run_fast_part(run, tier)
-    print(json.dumps({k: v for k, v in d.items() if k not in ('samples', 'rule')}), '%.1fs' % (time.time() - t0))
+    print(json.dumps({k: v for k, v in d.items() if k not in ('samples', 'rule', 'props')}), 'theorems', d['props'].get('theorems'), 'ok', d['props'].get('ok'), '%.1fs' % (time.time() - t0))
     for key, what, rp, no_input in run.violations:
         print('VIOLATION', key, what[:400], 'no-input' if no_input else '')
     sys.exit(1 if run.violations else 0)
